@@ -52,7 +52,7 @@ pub fn seq_case(text: &str, tts: &[TT], bridged: bool, seq: &[usize], fresh: &mu
 pub fn seq_case_n(text: &str, n: usize, bridged: bool, seq: &[usize], fresh: &mut Vec<Option<Norm>>, double: bool) -> Vec<(String, String)> {
     let mut out = vec![];
     let parser = AdfParser::default();
-    if parser.parse()(text).is_err() {
+    if !crate::fam::parse_into(&parser, text) {
         return vec![("parse".into(), "well-formed input rejected".into())];
     }
     let names: Vec<&str> = seq.iter().map(|c| CALL_NAMES[*c]).collect();
@@ -151,9 +151,9 @@ pub fn run_c11(run: &Run) {
         f32.first = run.seed % 8;
         f32.step = 8;
         f32.name = format!("F(3,2) class {} mod 8", run.seed % 8);
-        vec![(Source::FamCompact(fam_a(2)), 3, false), (Source::FamCompact(fam_f(3, 1)), 3, false), (Source::FamCompact(fam_a(2)), 2, true), (Source::FamCompact(fam_f(3, 1)), 2, true), (Source::FamCompact(f32.clone()), 2, false), (Source::FamCompact(f32), 1, true)]
+        vec![(Source::FamCompact(fam_a(0)), 3, false), (Source::FamCompact(fam_a(0)), 2, true), (Source::FamCompact(fam_a(2)), 3, false), (Source::FamCompact(fam_f(3, 1)), 3, false), (Source::FamCompact(fam_a(2)), 2, true), (Source::FamCompact(fam_f(3, 1)), 2, true), (Source::FamCompact(f32.clone()), 2, false), (Source::FamCompact(f32), 1, true)]
     } else {
-        vec![(Source::FamCompact(fam_a(2)), 4, false), (Source::FamCompact(fam_f(3, 1)), 3, false), (Source::FamCompact(fam_a(2)), 3, true), (Source::FamCompact(fam_f(3, 1)), 3, true), (Source::FamCompact(fam_f(3, 2)), 2, false)]
+        vec![(Source::FamCompact(fam_a(0)), 3, false), (Source::FamCompact(fam_a(0)), 2, true), (Source::FamCompact(fam_a(2)), 4, false), (Source::FamCompact(fam_f(3, 1)), 3, false), (Source::FamCompact(fam_a(2)), 3, true), (Source::FamCompact(fam_f(3, 1)), 3, true), (Source::FamCompact(fam_f(3, 2)), 2, false)]
     };
     for (src, maxlen, bridged) in plan {
         let per_adf: u64 = (0..=maxlen as u32).map(|l| (CALLS as u64).pow(l)).sum();
